@@ -1,5 +1,7 @@
 import SdcModel.Location
+import SdcModel.LocationSearch
 import SdcModel.Proofs.Location
+import SdcModel.Proofs.Discovery
 /-!
 # C16 — location scopes round-trip; location filtering tolerates foreign scopes
 Property theorems only. Model: `SdcModel/Location.lean` (+ `Basic/Percent`, `Basic/Utf8`, `Basic/Url`), compared with
@@ -156,6 +158,72 @@ theorem filter_services_total {α : Type} (chk : Bytes → Bool) (self : Loc) (s
     | none => simp [serviceMatches, hs]
     | some scopes =>
       simp only [serviceMatches, hany, List.filter_cons, hs]
+
+/-! ### the public entry point `WSDiscovery.search_sdc_device_services_in_location` -/
+
+open Sdc.Discovery Sdc.LocationSearch in
+/-- a discovered service is inside `self`: one of its scopes parses to a contained location -/
+def insideService (chk : Bytes → Bool) (self : Loc) (s : Discovery.Service) : Bool :=
+  match LocationSearch.scopesOf s with
+  | none => false
+  | some scopes => scopes.any (insideScope chk self)
+
+open Sdc.Discovery Sdc.LocationSearch in
+/-- **Search by location is exact.** For every table of discovered services (each with a types list, as the message
+    handlers construct them) the search returns exactly the services that offer all SDC device types and have at least
+    one scope inside the searched location — whatever other scopes (foreign, malformed, several location scopes in any
+    order) they carry; nothing is matched with the WS-Discovery prefix rule. -/
+theorem search_in_location_exact (chk : Bytes → Bool) (r : Rules) (self : Loc) (deviceTypes : List QName)
+    (remote : List Discovery.Service) (hT : ∀ s ∈ remote, s.types ≠ none) :
+    searchInLocation chk r self deviceTypes remote =
+      .ok (remote.filter fun s => deviceTypes.all (offersType s) && insideService chk self s) := by
+  unfold searchInLocation
+  have hc : ∀ s ∈ remote, Comparable chk r none s := fun s hs => ⟨hT s hs, fun sc h => by cases h⟩
+  rw [filterServices_total (some deviceTypes) hc]
+  simp only [filter_services_total, List.filter_filter]
+  congr 1
+  apply List.filter_congr
+  intro s _
+  simp [wanted, insideService, Bool.and_comm]
+
+open Sdc.Discovery Sdc.LocationSearch in
+/-- … so a device that publishes the scope of its location `l` is found by a search for every enclosing location, -/
+theorem search_finds_published (chk : Bytes → Bool) (r : Rules) (enc l : Loc) (deviceTypes : List QName)
+    (remote : List Discovery.Service) (hT : ∀ s ∈ remote, s.types ≠ none) (hv : l.valid = true)
+    (s : Discovery.Service) (hs : s ∈ remote) (hty : deviceTypes.all (offersType s) = true)
+    (sc : Scopes) (hsc : s.scopes = some sc) (p : Bytes) (hp : published l = .ok p) (hmem : p ∈ sc.text)
+    (henc : Encloses enc { l with root := defaultRoot }) :
+    ∃ res, searchInLocation chk r enc deviceTypes remote = .ok res ∧ s ∈ res := by
+  refine ⟨_, search_in_location_exact chk r enc deviceTypes remote hT, ?_⟩
+  simp only [List.mem_filter, Bool.and_eq_true]
+  refine ⟨hs, hty, ?_⟩
+  simp only [insideService, scopesOf, hsc, Option.map_some, List.any_eq_true]
+  refine ⟨p, hmem, ?_⟩
+  unfold insideScope
+  rw [published_roundtrip chk l hv p hp]
+  exact (contains_iff _ _).mpr henc
+
+open Sdc.Discovery Sdc.LocationSearch in
+/-- … and by no search for a location that does not enclose it (when its other scopes are not inside either). -/
+theorem search_excludes_elsewhere (chk : Bytes → Bool) (r : Rules) (enc l : Loc) (deviceTypes : List QName)
+    (remote : List Discovery.Service) (hT : ∀ s ∈ remote, s.types ≠ none) (hv : l.valid = true)
+    (s : Discovery.Service) (sc : Scopes) (hsc : s.scopes = some sc) (p : Bytes) (hp : published l = .ok p)
+    (hother : ∀ q ∈ sc.text, q = p ∨ insideScope chk enc q = false)
+    (henc : ¬ Encloses enc { l with root := defaultRoot }) (res : List Discovery.Service)
+    (hres : searchInLocation chk r enc deviceTypes remote = .ok res) : s ∉ res := by
+  rw [search_in_location_exact chk r enc deviceTypes remote hT] at hres
+  simp only [Except.ok.injEq] at hres
+  subst hres
+  simp only [List.mem_filter, Bool.and_eq_true, not_and]
+  intro _ _
+  simp only [insideService, scopesOf, hsc, Option.map_some, List.any_eq_true, not_exists, not_and]
+  intro q hq
+  rcases hother q hq with rfl | h
+  · unfold insideScope
+    rw [published_roundtrip chk l hv q hp]
+    intro hc
+    exact henc ((contains_iff _ _).mp hc)
+  · simp [h]
 
 /-! ### non-vacuity: concrete instances of the hypotheses -/
 
